@@ -10,6 +10,8 @@ PROP = dict(
             "hangs are detected by vt's no-progress watchdog (90 s + 20 s inside one call into the repo); slowness below that is not judged. Algorithmic blow-ups are only visible through the allocation clause",
             "allocation is measured as runtime.MemStats.TotalAlloc delta of the whole process around one read of the input (harness copies of handed-out values subtracted); bound 64 MiB + 8*(len(input) + threads*Max)",
             "VNG objects that declare a segment > 32 MiB or container lengths summing to > 2^21 are not given to the reader while finding C11-vng-alloc is open (a hit is a multi-GiB allocation or an hours-long loop, not a clean failure); they are counted under that finding",
+            "before a Threads=3 run that follows a synchronous run ending in an error, the synchronous scanner is read on past every error (it keeps no sticky error) so that frames the threaded scanner would reach by reading ahead are visited on the test goroutine first; a listed panic there vetoes the threaded run",
+            "finding C11-unmarshal-null-union is a Go fatal error (stack overflow) that cannot be observed in-process: the check reports the structural condition that causes it (a null union value inside a VNG metadata value) and keeps such objects from the reader; the crash itself was observed as a dead worker in the thorough tier",
             "native fuzzing is not reproducible from a seed; its crashers are saved as replay cases and replayed deterministically afterwards",
         ],
         level_text="Fuzzing: structure-aware mutation of valid encodings produced by the repo's own writers (plus repo test inputs and hostile literals), drawn by rapid so that every case is a replayable JSON file; "
